@@ -194,6 +194,13 @@ def cases(thorough: bool = False) -> Iterator[Tuple[str, List[Any], List[Any], s
             yield 'GET', [n], [v, z], f'GET {n} on {what}'
             yield 'UPDATE', [n], [L('unit', 'u'), v, z], f'UPDATE {n} on {what}'
     yield 'UPDATE', [2], [P(a, b), comb4, z], 'UPDATE 2 with a pair element'
+    # the new component is itself a pair / a comb: at an odd index it replaces ONE component (and stays one), at an even index it is the new tail
+    pe, ce = P(L('bool', 'p'), L('timestamp', 'q')), P(L('bool', 'p'), P(L('timestamp', 'q'), L('key_hash', 'r')))
+    for n in range(0, 7):
+        yield 'UPDATE', [n], [pe, comb4, z], f'UPDATE {n} on comb of 4 with a pair as the new component'
+    for n in (1, 3, 4):
+        yield 'UPDATE', [n], [ce, comb4, z], f'UPDATE {n} on comb of 4 with a comb of 3 as the new component'
+    yield 'UPDATE', [1], [pe, P(a, b), z], 'UPDATE 1 on a flat pair with a pair as the new component'
     yield 'LEFT', ['string'], [a, z], 'LEFT'
     yield 'LEFT', [('pair', 'nat', 'int')], [nested, z], 'LEFT of a pair'
     yield 'RIGHT', ['string'], [a, z], 'RIGHT'
@@ -324,7 +331,10 @@ def norm_repo(res: List[PathResult]) -> List[Dict[str, Any]]:
     return out
 
 
-def run_case(repo: Repo, prim: str, args: List[Any], stack: List[Any], unroll: int = 3) -> Tuple[Optional[str], List[Dict[str, Any]], List[Dict[str, Any]]]:
+def run_case(repo: Repo, prim: str, args: List[Any], stack: List[Any], unroll: int = 3, protect: int = 0) -> Tuple[Optional[str], List[Dict[str, Any]], List[Dict[str, Any]]]:
+    """protect=k: the instruction is run as inside `DIP k { ... }`: k foreign items sit in the protected prefix of the stack.  They must be left
+    alone (the normalised outcome drops them and records `prefix_ok`), `protected` must be k again at the end, and the visible part must be
+    what the reference semantics gives for the unprotected stack."""
     nargs = len(args)
     q = find_class(repo, prim, nargs)
     if q is None:
@@ -332,9 +342,18 @@ def run_case(repo: Repo, prim: str, args: List[Any], stack: List[Any], unroll: i
     undefined = Obj(UNDEF, {}, tag='Undefined')
     ra, fa = conv_args(args, undefined)
     hooks_extra = {'_undefined': undefined}
-    res = run_typed(repo, q, [to_obj(s, undefined) for s in stack], ra, extra=hooks_extra, loop_unroll=unroll)
+    guards = [to_obj(L('chain_id', f'dip_guard{i}'), undefined) for i in range(protect)]
+    res = run_typed(repo, q, guards + [to_obj(s, undefined) for s in stack], ra, extra=hooks_extra, loop_unroll=unroll, protected=protect)
     ref = outcomes(prim, fa, [to_ref(s) for s in stack], max_choices=unroll + 1)
-    return q, norm_repo(res), ref
+    got = norm_repo(res)
+    if protect:
+        gk = [(vshape(g), vtype(g)) for g in guards]
+        for o in got:
+            if o['kind'] == 'stack':
+                o['prefix_ok'] = o['stack'][:protect] == gk and o['protected'] == protect
+                o['stack'] = o['stack'][protect:]
+                o['protected'] = 0 if o['protected'] == protect else ('left-at', o['protected'])
+    return q, got, ref
 
 
 # ------------------------------------------------------------------------------------------------------------------ level 1 (opaque types)
